@@ -9,7 +9,7 @@ relevant_verdict = WP.make_relevant(ID, also=("C01:user-password",))
 LEAN_TARGETS = ["Rsp.Props.C03", "Rsp.Tie.C03", "Rsp.Props.C03Stage", "Rsp.Props.C03Path"]
 THEOREMS = ["Rsp.Crypt.rfc_decrypt_encrypt", "Rsp.Crypt.pwdLoop_enc", "Rsp.Crypt.pwdLoop_dec", "Rsp.Crypt.recrypt_core",
             "Rsp.Props.C03.pwdrecrypt_meets_spec", "Rsp.Props.C03.msmpprecrypt_meets_spec",
-            "Rsp.Props.C03.pwdrecrypt_rejects", "Rsp.Props.C03.msmpprecrypt_rejects", "Rsp.Props.C03.pwdrecrypt_some", "Rsp.Props.C03.recryptPath_end_to_end",
+            "Rsp.Props.C03.pwdrecrypt_rejects", "Rsp.Props.C03.msmpprecrypt_rejects", "Rsp.Props.C03.pwdrecrypt_some", "Rsp.Props.C03.recryptPath_end_to_end", "Rsp.Props.C03.msmpprecrypt_some", "Rsp.Props.C03.msmppPath_end_to_end",
             "Rsp.Tie.C03.pwdLenBad_tie", "Rsp.Tie.C03.msmppLenBad_tie", "Rsp.Props.C03.forward_bad_password_drops"]
 RULE = ("real pwdrecrypt/msmpprecrypt called on every value length 0..255 x random contents, secrets (1..255 octets, binary), authenticators and salts; "
         "plus md5/hmac-md5 vectors comparing the Lean hash with nettle; non-trivial = valid length (the value is actually re-encrypted), distinct by content")
